@@ -94,6 +94,9 @@ type SpySigner struct {
 	// to observe global call order).
 	Log *[]string
 	Tag string
+	// OwnRand, when set, replaces the entropy source handed in by the caller
+	// (per-signer entropy faults inside a multi-signer call).
+	OwnRand io.Reader
 }
 
 func (s *SpySigner) Algorithm() cose.Algorithm { return s.Alg }
@@ -102,6 +105,9 @@ func (s *SpySigner) Sign(rand io.Reader, content []byte) ([]byte, error) {
 	s.Calls = append(s.Calls, SpyCall{Content: append([]byte{}, content...)})
 	if s.Log != nil {
 		*s.Log = append(*s.Log, "sign:"+s.Tag)
+	}
+	if s.OwnRand != nil {
+		rand = s.OwnRand
 	}
 	switch s.Fault {
 	case "err":
